@@ -356,7 +356,14 @@ func baseHeaderSpec(r *rng.R) BatchSpec {
 // name, or nothing), so that every single field is decisive in some generated pair.
 func variant(r *rng.R, h BatchSpec) BatchSpec {
 	v := h
-	switch r.Intn(11) {
+	switch r.Intn(13) {
+	case 11, 12:
+		// the boundary between two adjacent compared fields moved by one character: the headers differ
+		// although name followed by identification read the same
+		if len(h.CID) >= 2 && len(h.Name) < 16 {
+			v.Name = h.Name + h.CID[:1]
+			v.CID = h.CID[1:]
+		}
 	case 0:
 		if v.SCC == 200 {
 			v.SCC = rng.Pick(r, []int{220, 225})
@@ -577,6 +584,16 @@ func capCase(r *rng.R) Case {
 	return Case{Files: files}
 }
 
+// capCase2: the same amounts under three different batch headers (each batch total fits its 12 digits, the
+// file total does not): a cap above the Nacha limit must still be forced down to it.
+func capCase2(r *rng.R) Case {
+	c := capCase(r)
+	for k := range c.Files {
+		c.Files[k].Batches[0].Desc = fmt.Sprintf("PAYROLL%d", k)
+	}
+	return c
+}
+
 // ---------------------------------------------------------------- correspondence
 
 func corr(args []string) {
@@ -605,6 +622,12 @@ func corr(args []string) {
 	cc := capCase(r)
 	for _, d := range []int64{0, 999999999999, 999999999998, 1000000000000, 99999999990} {
 		k := cc
+		k.MaxDollar = d
+		emit(k)
+	}
+	cc2 := capCase2(r)
+	for _, d := range []int64{0, 1000000000000, 1199999999880, 2000000000000} {
+		k := cc2
 		k.MaxDollar = d
 		emit(k)
 	}
@@ -1027,6 +1050,12 @@ func oracle(args []string) {
 	cc := capCase(r)
 	for _, d := range []int64{0, 999999999998, 99999999990} {
 		k := cc
+		k.MaxDollar = d
+		run(k)
+	}
+	cc2 := capCase2(r)
+	for _, d := range []int64{0, 1199999999880, 2000000000000} {
+		k := cc2
 		k.MaxDollar = d
 		run(k)
 	}
